@@ -103,7 +103,8 @@ impl<'a> SdesChunk<'a> {
                 ret.items.push(item);
             }
 
-            while offset < data.len() && data[offset] == 0 {
+            // the terminating null is followed by nulls up to the next 32-bit boundary only
+            while offset < data.len() && offset % 4 != 0 && data[offset] == 0 {
                 offset += 1;
             }
         }
